@@ -13,6 +13,8 @@
  * result: ret=<class> errno=<name> lockdelta=<d> allocs=<m> fired=<0|1> trace=<L/U string|-> probe=<ok|blocked|na>
  */
 #include "common.h"
+#include <sys/resource.h>
+#include <signal.h>
 #include <pthread.h>
 #include <setjmp.h>
 #include <signal.h>
@@ -363,6 +365,21 @@ static void do_listtbl(args_t *A) {
         /* a table file with two entries, written by the library itself outside the measured call */
         qlisttbl_t *s = qlisttbl(0); s->putstr(s, "la", "1"); s->putstr(s, "lb", "2"); s->save(s, tmppath2, '=', true); s->free(s);
     }
+    /* save with idx >= 3: the file may only grow to (length of the header line) + idx - 4 bytes (RLIMIT_FSIZE with
+     * SIGXFSZ ignored: write() then comes back short, after that it fails with EFBIG) - the header goes out, a
+     * data line does not, or only in part: the failure exit INSIDE the locked loop (seed C14-m9) */
+    struct rlimit fs_old; bool fs_limited = false;
+    if (FN("save") && A->idx >= 3) {
+        size_t hdr = 0;
+        if (t->save(t, tmppath, '=', A->flag)) {
+            FILE *fp = fopen(tmppath, "r"); int c;
+            if (fp) { while ((c = fgetc(fp)) != EOF) { hdr++; if (c == '\n') break; } fclose(fp); }
+        }
+        getrlimit(RLIMIT_FSIZE, &fs_old);
+        struct rlimit lim = fs_old; lim.rlim_cur = hdr + (size_t) A->idx - 4 > 0 && hdr ? hdr + A->idx - 4 : 1;
+        signal(SIGXFSZ, SIG_IGN);
+        fs_limited = setrlimit(RLIMIT_FSIZE, &lim) == 0;
+    }
     BEGIN();
     if (FN("put")) RB(t->put(t, keystr, data, dsz));
     else if (FN("putstr")) RB(t->putstr(t, keystr, A->val_null ? NULL : "str"));
@@ -380,7 +397,8 @@ static void do_listtbl(args_t *A) {
     else if (FN("size")) RI(t->size(t));
     else if (FN("sort")) RV(t->sort(t));
     else if (FN("clear")) RV(t->clear(t));
-    else if (FN("save")) RB(t->save(t, A->idx == 0 ? NULL : (A->idx == 1 ? tmppath : "/nonexistent-dir/x"), '=', A->flag));
+    else if (FN("save")) { RB(t->save(t, A->idx == 0 ? NULL : (A->idx == 1 || A->idx >= 3 ? tmppath : "/nonexistent-dir/x"), '=', A->flag));
+                           if (fs_limited) setrlimit(RLIMIT_FSIZE, &fs_old); }
     else if (FN("load")) RI(t->load(t, A->idx == 1 ? tmppath2 : "/nonexistent-dir/x", '=', A->flag));
     else if (FN("debug")) RB(t->debug(t, A->flag ? devnull : NULL));
     else if (FN("lockunlock")) RV((t->lock(t), t->unlock(t)));
